@@ -367,3 +367,20 @@ def compare_written(t, exp, continuous, fmts=('export', 'brackets', 'discobracke
         if d:
             probs.append('%s writer shows %s' % (fmt, d))
     return probs
+
+
+def build_via_brackets(mt, scratch_dir, **opts):
+    """The model tree as the real bracket reader delivers it (labels as written, e.g. NP-SBJ-1; reader
+    options such as gf_split as given)."""
+    from . import codecs
+    from trees import treeinput
+    _via_counter[0] += 1
+    path = os.path.join(scratch_dir, 'via-%d-%d.mrg' % (os.getpid(), _via_counter[0] % 4))
+    with open(path, 'w', encoding='utf-8') as f:
+        f.write(codecs.encode_brackets([mt]))
+    with quiet():
+        trees_ = list(treeinput.brackets(path, 'utf-8', quiet=True, **opts))
+    os.unlink(path)
+    if len(trees_) != 1:
+        raise AssertionError('harness: bracket reader did not return exactly one tree')
+    return trees_[0]
